@@ -273,6 +273,12 @@ func damageWord(w string) []string {
 		add(string(rs[:len(rs)-1]))
 		add(string(rs[1:]))
 	}
+	// every proper prefix and suffix (code that completes, suggests or compares by prefix; byte
+	// length and rune count differ for every script but ASCII)
+	for k := 1; k < len(rs); k++ {
+		add(string(rs[:k]))
+		add(string(rs[k:]))
+	}
 	add(w + "s")
 	add(w + "\u0301")
 	add(w + "\u200b")
